@@ -10,7 +10,7 @@ import (
 
 var errKilled = errors.New("crashdb: process killed")
 
-// CrashDB wraps the indexer's database. At the k-th batch Write/WriteSync it either drops
+// CrashDB wraps the indexer's database. At the k-th write (batch Write/WriteSync, or a direct Set/Delete) it either drops
 // (applied=false) or applies (applied=true) the batch and from then on fails every operation:
 // the view a killed process leaves on disk. Torn batches are deliberately not injected: the
 // production backends (LevelDB / Pebble / RocksDB) write a batch atomically.
@@ -45,19 +45,35 @@ func (c *CrashDB) Has(k []byte) (bool, error) {
 	return c.inner.Has(k)
 }
 
-func (c *CrashDB) Set(k, v []byte) error {
+// direct writes (outside any batch) are write points of their own: the k-th write of the process, batch or not, is
+// where it dies
+func (c *CrashDB) direct(apply func() error) error {
 	if c.crashed.Load() {
 		return errKilled
 	}
-	return c.inner.Set(k, v)
+	n := c.writes.Add(1)
+	if c.k > 0 && n == c.k {
+		var err error
+		if c.applied {
+			err = apply()
+		}
+		c.crashAt.Store(1)
+		c.crashed.Store(true)
+		if err != nil {
+			return err
+		}
+		return errKilled
+	}
+	return apply()
+}
+
+func (c *CrashDB) Set(k, v []byte) error {
+	return c.direct(func() error { return c.inner.Set(k, v) })
 }
 func (c *CrashDB) SetSync(k, v []byte) error { return c.Set(k, v) }
 
 func (c *CrashDB) Delete(k []byte) error {
-	if c.crashed.Load() {
-		return errKilled
-	}
-	return c.inner.Delete(k)
+	return c.direct(func() error { return c.inner.Delete(k) })
 }
 func (c *CrashDB) DeleteSync(k []byte) error { return c.Delete(k) }
 
